@@ -229,6 +229,8 @@ CORPUS = [
      '--theta=0,10,2', '--phi=0,90,1'],
     ['-w', '10,0,0,0,0,0,10,.001', '--rlc-load=50,0,1e-10', '--attach-load=1,2', '--rlc-load=0,3e-6,0', '--attach-load=2,4',
      '--theta=0,10,2', '--phi=0,90,1'],
+    ['-w', '20,0,0,0,0,0,10,.001', '--excitation-pulse=10', '--trap-load=2,1.2e-6,1e-10', '--attach-load=1,4', '--trap-load=1.5,3.3e-6,',
+     '--attach-load=2,16', '--theta=0,10,2', '--phi=0,90,1'],
     ['-w', '3,0,0,0,0,0,3,.001', '--excitation-pulse=1', '--load=5', '--attach-load=1,1', '--attach-load=1,1',
      '--theta=0,10,2', '--phi=0,90,1'],
     ['-w', '4,0,0,0,0,0,5,.001', '-w', '4,0,0,5,0,3,5,.001', '--excitation-pulse=2', '--skin-effect-conductivity=5e7,1',
